@@ -266,6 +266,17 @@ func WireAddrs(r *kernel.Rand, n int, sparse bool) []map[wallet.BackendID]wire.A
 			for b, n := 1, r.Range(1, 3); b <= n; b++ {
 				out[i][wallet.BackendID(b)] = WireAddr(r.Uint64() % 64)[channel.TestBackendID]
 			}
+			// the backend ids of a client need not be 0..n-1: some maps lack id 0
+			// or have gaps
+			switch r.Intn(5) {
+			case 0:
+				delete(out[i], channel.TestBackendID)
+			case 1:
+				if a, ok := out[i][1]; ok {
+					delete(out[i], 1)
+					out[i][wallet.BackendID(r.Range(4, 9))] = a
+				}
+			}
 		}
 	}
 	return out
